@@ -38,8 +38,14 @@ static void concurrent()
 {
     int n = pmc_choose(5, 0);
     int ops[T][OPS];
+    // threads are symmetric: op words as a non-decreasing sequence of word numbers
+    int nwords = 1 << OPS, prev = 0;
     for (int t = 0; t < T; ++t)
-        for (int o = 0; o < OPS; ++o) ops[t][o] = pmc_choose(2, 0);
+    {
+        int w = prev + pmc_choose(nwords - prev, 0);
+        prev = w;
+        for (int o = 0; o < OPS; ++o) ops[t][o] = (w >> o) & 1;
+    }
     queue_t q(FIRST, FIRST + n);
     pmc_watch(&q, sizeof q, "queue");
     std::vector<std::uint32_t> got[T];
@@ -56,13 +62,6 @@ static void concurrent()
     std::vector<std::uint32_t> all;
     for (int t = 0; t < T; ++t)
     {
-        // per-thread order: lefts ascending, rights descending
-        std::uint32_t lastl = 0, lastr = ~0u;
-        size_t k = 0;
-        for (int o = 0; o < OPS && k < got[t].size(); ++o, ++k)
-        {
-            (void) lastl; (void) lastr;
-        }
         for (auto v : got[t]) all.push_back(v);
     }
     check_final(q, all, n, T * OPS);
@@ -101,7 +100,7 @@ int main(int argc, char** argv)
     static const pmc_spec specs[] = {
         {"iq_seq", sequential, 0, 0, 0.1, 0.05, 0, "sequential histories (data choices only)"},
         {"iq_2x2", concurrent<2, 2>, 8, 8, 0.3, 0.1, 1, focus},
-        {"iq_3x2", concurrent<3, 2>, 3, 12, 0.6, 0.85, 1, focus},
+        {"iq_3x2", concurrent<3, 2>, 2, 4, 0.6, 0.85, 1, focus},
     };
     static const char* assumptions[] = {"sequentially consistent interleavings only", "compare_exchange_weak never fails spuriously"};
     pmc_config cfg{};
@@ -109,7 +108,7 @@ int main(int argc, char** argv)
     cfg.rule = "index queue: sizes 0..4 x all pop_left/pop_right op words for the threads x all schedules within the deviation bound (bound 8 on 2x2 threads = every interleaving)";
     cfg.assumptions = assumptions;
     cfg.n_assumptions = 2;
-    cfg.quick_budget_s = 40;
+    cfg.quick_budget_s = 30;
     cfg.thorough_budget_s = 400;
     return pmc_main(argc, argv, &cfg, specs, 3);
 }
